@@ -277,7 +277,13 @@ def render_ods(grid, *, opts=None, images=None) -> bytes:
                 else:
                     merged.append([b, 1])
             body = [b if n == 1 else b.replace("<table:table-row>", f'<table:table-row table:number-rows-repeated="{n}">', 1) for b, n in merged]
-        rows_xml = "".join(rows) + (f"<table:table-header-rows>{''.join(body[:hdr])}</table:table-header-rows>" if hdr else "") + "".join(body[hdr:])
+        data_rows = body[hdr:]
+        if opts.get("row_groups") and len(data_rows) >= 2:
+            # outline levels: the rows after the first sit in a row group, all but the last of them in a group nested inside it (two outline levels)
+            inner, last = data_rows[1:-1], data_rows[-1]
+            grouped = "<table:table-row-group>" + (f"<table:table-row-group>{''.join(inner)}</table:table-row-group>" if inner else "") + last + "</table:table-row-group>"
+            data_rows = [data_rows[0], grouped]
+        rows_xml = "".join(rows) + (f"<table:table-header-rows>{''.join(body[:hdr])}</table:table-header-rows>" if hdr else "") + "".join(data_rows)
         shapes = ""
         sheet_imgs = [(k, im) for k, im in enumerate(images or []) if im.get("unit", 0) == len(tables)]
         if sheet_imgs:
@@ -414,7 +420,7 @@ def validate(grid):
 
 # ---- strategy ---------------------------------------------------------------------------------------------------------
 @st.composite
-def grids(draw, fmt, max_sheets=3, max_r=6, max_c=5, headers="plain"):
+def grids(draw, fmt, max_sheets=3, max_r=6, max_c=5, headers="plain", single_row_ok=False):
     """headers: 'plain' (distinct non-empty string header row: the neutral form) | 'any' (typed / empty / duplicate first rows too)"""
     ctr = [draw(st.integers(0, 10**5)) * 300]
 
@@ -458,7 +464,7 @@ def grids(draw, fmt, max_sheets=3, max_r=6, max_c=5, headers="plain"):
         rows = [[cell(typed) for _ in range(c)] for _ in range(r)]
         if headers == "plain" or draw(st.integers(0, 9)) < 6:
             rows[0] = [{"t": "s", "v": tok()} for _ in range(c)]
-            if r == 1:
+            if r == 1 and not single_row_ok:      # a sheet that is only a header row has no table rows; the text legs allow it
                 rows.append([cell(["s", "int"]) for _ in range(c)])
         # make sure the last row / column hold something so the used range is what we think
         if rows[-1][-1] is None:
